@@ -118,12 +118,25 @@ thread_local! {
 }
 
 pub fn with<R>(f: impl FnOnce(&mut Host) -> R) -> R {
-    HOST.with(|h| f(h.borrow_mut().as_mut().expect("host not installed")))
+    HOST.with(|h| {
+        let mut b = h.borrow_mut();
+        let host = b.as_mut().expect("host not installed");
+        if host.trace.len() > MAX_EVENTS {
+            // cannot unwind through the guest's extern "C" frames: dump what we have and stop
+            host.trace.truncate(MAX_EVENTS);
+            host.trace.push(json!({"ev": "LIVELOCK"}));
+            crate::dump_and_exit(&host.trace);
+        }
+        f(host)
+    })
 }
 
 pub fn ev(v: Value) {
     with(|h| h.trace.push(v));
 }
+
+/// Livelock guard: a run that logs this many events does not terminate.
+pub const MAX_EVENTS: usize = 6000;
 
 impl Host {
     pub fn new(decider: Box<dyn Decider>) -> Host {
@@ -274,12 +287,14 @@ impl Host {
             self.trap(format!("waitable-set.wait({s}): not a waitable set"));
             return (EVENT_NONE, 0, 0);
         }
+        let mut fuel = 64;
         loop {
             if let Some(r) = self.take_event_of_set(s) {
                 self.trace.push(json!({"ev": "set.wait", "s": s, "ret": [r.0, r.1, r.2]}));
                 return r;
             }
-            if !self.host_step(true) {
+            fuel -= 1;
+            if fuel == 0 || !self.host_step(true) {
                 self.trap(format!("waitable-set.wait({s}): no event can ever arrive (lost wakeup / deadlock)"));
                 self.trace.push(json!({"ev": "set.wait", "s": s, "ret": [0, 0, 0]}));
                 return (EVENT_NONE, 0, 0);
